@@ -14,6 +14,8 @@
 #include "message/Message.h"
 #include "util/ByteBuffer.h"
 #include "system/SetupSystem.h"
+#include "util/ObjectPool.h"
+#include <utility>
 #include "msggen.h"
 #include "vh.h"
 using namespace muscle;
@@ -121,8 +123,76 @@ static bool Same(const Message & a, const Message & b, bool skip, const char * s
    return false;
 }
 
-// the oracle.  (prev) = another Message (previous content of the reused objects, member of the equality panel)
-static void CheckRoundTrip(const Message & M, const Message & prev, uint64_t * digestOut, uint32 * sizeOut)
+// ---- cross-checks that follow from "equality ... unchanged by the trip" ----------------------------------------------------------------
+static bool FieldHasNaN(const Message & m, const String & fn) { Message t; if (m.ShareName(fn, t).IsError()) return false; return ContainsNaN(t); }
+
+// AreFieldsEqual() must agree with field-wise equality: (ref) = the original without pointer/tag fields, (p) = a parsed Message
+static void CheckFieldwise(const Message & M, const Message & ref, const Message & p, const char * stage)
+{
+   const std::string st(stage);
+   std::vector<String> names; for (MessageFieldNameIterator it = ref.GetFieldNameIterator(); it.HasData(); it++) names.push_back(it.GetFieldName());
+   if (!ref.AreFieldsEqual(p, "no such field \x01\x02") || !ref.AreFieldsEqual(p, "no such field \x01\x02", false)) { Fail(st + "|arefieldsequal|both-absent", "AreFieldsEqual() on a name missing from both Messages is documented to be true"); return; }
+   for (size_t i = 0; i < names.size() && i < 16 && !caseBad; i++) {
+      const String & fn = names[i]; const bool fnan = FieldHasNaN(ref, fn);
+      if (!ref.AreFieldsEqual(p, fn, false) || !p.AreFieldsEqual(ref, fn, false)) { Fail(st + "|arefieldsequal|shape", "AreFieldsEqual(compareFieldValues=false) is false for field '" + Esc(fn(), 20) + "' although type and count survived the trip"); return; }
+      if (fnan) vh::stat("unspecified_arefieldsequal_with_nan_items");
+      else { vh::stat("arefieldsequal_checked"); if (!ref.AreFieldsEqual(p, fn) || !p.AreFieldsEqual(ref, fn, fn, true)) { Fail(st + "|arefieldsequal|values", "AreFieldsEqual() is false for field '" + Esc(fn(), 20) + "' which has no NaN item and is bit-identical after the trip"); return; } }
+      if (i + 1 < names.size()) {   // two different fields: certainly unequal when type or count differ, certainly equal when bit-identical without NaN
+         const String & fb = names[i + 1]; uint32 ta = 0, tb = 0, na = 0, nb = 0; (void)ref.GetInfo(fn, &ta, &na); (void)p.GetInfo(fb, &tb, &nb);
+         const bool got = ref.AreFieldsEqual(p, fn, fb), gotShape = ref.AreFieldsEqual(p, fn, fb, false); std::string w, k;
+         if (ta != tb || na != nb) { if (got || gotShape) { Fail(st + "|arefieldsequal|different-fields-equal", vh::fmt("fields of type %08x x %u and %08x x %u compare equal", ta, na, tb, nb)); return; } vh::stat("arefieldsequal_cross_unequal_checked"); }
+         else { if (!gotShape) { Fail(st + "|arefieldsequal|shape", "same type and count, AreFieldsEqual(.., false) is false"); return; } if (!fnan && SameField(ref, fn, p, fb, false, w, k) && !got) { Fail(st + "|arefieldsequal|values", "two bit-identical fields without NaN compare unequal"); return; } }
+      }
+   }
+   // a field that exists on one side only (pointer / tag fields never arrive)
+   if (&M != &ref) for (MessageFieldNameIterator it = M.GetFieldNameIterator(); it.HasData() && !caseBad; it++) if (IsNonFlat(it.GetFieldType()) && !p.HasName(it.GetFieldName())) { if (M.AreFieldsEqual(p, it.GetFieldName()) || p.AreFieldsEqual(M, it.GetFieldName(), false)) Fail(st + "|arefieldsequal|one-sided", "AreFieldsEqual() is true for a field that exists in one Message only"); else vh::stat("arefieldsequal_one_sided_checked"); break; }
+}
+
+// type-filtered field-name iteration lists exactly the fields of that type, in order; the counting accessors agree
+static void CheckTypeFilter(const Message & m, const char * stage)
+{
+   const std::string st(stage);
+   std::vector<std::pair<std::string, uint32> > all;
+   for (MessageFieldNameIterator it = m.GetFieldNameIterator(); it.HasData(); it++) { uint32 t = 0; (void)m.GetInfo(it.GetFieldName(), &t); if (it.GetFieldType() != t) { Fail(st + "|typefilter|getfieldtype", "iterator GetFieldType() differs from GetInfo()"); return; } all.push_back(std::make_pair(std::string(it.GetFieldName()(), it.GetFieldName().Length()), t)); }
+   if (m.GetNumNames() != all.size() || m.GetNumNames(B_ANY_TYPE) != all.size() || m.HasNames() != !all.empty() || m.IsEmpty() != all.empty()) { Fail(st + "|typefilter|count", "GetNumNames()/HasNames()/IsEmpty() disagree with the iteration"); return; }
+   std::set<uint32> types; for (size_t i = 0; i < all.size(); i++) types.insert(all[i].second);
+   types.insert(B_INT32_TYPE); types.insert(B_STRING_TYPE); types.insert(0x61627374u /* absent */);
+   for (std::set<uint32>::const_iterator ti = types.begin(); ti != types.end() && !caseBad; ++ti) {
+      const uint32 t = *ti; std::vector<std::string> want, g1, g2, g3;
+      for (size_t i = 0; i < all.size(); i++) if (all[i].second == t) want.push_back(all[i].first);
+      for (MessageFieldNameIterator it = m.GetFieldNameIterator(t); it.HasData(); it++) { g1.push_back(std::string(it.GetFieldName()(), it.GetFieldName().Length())); if (it.GetFieldType() != t) { Fail(st + "|typefilter|foreign-type", "a type-filtered iterator stands on a field of another type"); return; } }
+      for (MessageFieldNameIterator it(m, t); it.HasData(); it++) g2.push_back(std::string(it.GetFieldName()(), it.GetFieldName().Length()));
+      for (MessageFieldNameIterator it = m.GetFieldNameIterator(t, HTIT_FLAG_BACKWARDS); it.HasData(); it++) g3.insert(g3.begin(), std::string(it.GetFieldName()(), it.GetFieldName().Length()));
+      if (g1 != want || g2 != want || g3 != want) { Fail(st + "|typefilter|list", vh::fmt("fields of type %08x: %zu in the Message; GetFieldNameIterator(type) lists %zu, MessageFieldNameIterator(msg, type) %zu, backwards %zu (or another order)", t, want.size(), g1.size(), g2.size(), g3.size())); return; }
+      const String * f = m.GetFirstFieldNameString(t), * l = m.GetLastFieldNameString(t);
+      if (m.GetNumNames(t) != want.size() || m.HasNames(t) != !want.empty() || (f != NULL) != !want.empty() || (l != NULL) != !want.empty() || (f && std::string((*f)(), f->Length()) != want.front()) || (l && std::string((*l)(), l->Length()) != want.back())) { Fail(st + "|typefilter|count", vh::fmt("GetNumNames/HasNames/GetFirst/LastFieldNameString for type %08x disagree with the iteration", t)); return; }
+      vh::stat("typefilter_lists_checked");
+   }
+}
+
+// steps 3-5 for one parsed object (a fresh one, or a used target)
+static void CheckParsed(const Message & M, const Message & ref, bool nan, uint32_t nonflat, const Message & p, const uint8 * buf, uint32 n, const char * stage)
+{
+   const std::string st(stage); const bool fresh = (st == "fresh");
+   if (!Same(M, p, true, stage)) return;                                                                                   // 3
+   const uint32 n2 = p.FlattenedSize();                                                                                    // 4
+   if (n2 != n) { Fail(fresh ? "reflatten|size" : st + "|size", vh::fmt("FlattenedSize() %u before, %u after the trip", n, n2)); return; }
+   { uint8 * b2 = FlattenExact(p, n2); const bool same = memcmp(buf, b2, n) == 0; if (!same) Fail(fresh ? "reflatten|bytes" : st + "|bytes", FirstDiff(buf, n, b2, n2)); free(b2); if (!same) return; }
+   const uint32 c1 = M.CalculateChecksum(), c2 = p.CalculateChecksum();                                                     // 5
+   if (c1 != c2) { Fail(fresh ? "checksum|differs" : st + "|checksum", vh::fmt("CalculateChecksum() %08x before, %08x after the trip", c1, c2)); return; }
+   if (p.CalculateChecksum(true) != c2) { Fail(fresh ? "checksum|nonflattenable-flag" : st + "|checksum", "the parsed Message has no non-flattenable fields, yet CalculateChecksum(true) != CalculateChecksum(false)"); return; }
+   if (!nan) {
+      if (!(ref == p) || (ref != p)) { Fail(fresh ? "equality|original==parsed" : st + "|equality", "operator== (original, parsed) is false without any NaN item"); return; }
+      if (!(p == ref) || (p != ref)) { Fail(fresh ? "equality|parsed==original" : st + "|equality", "operator== (parsed, original) is false without any NaN item"); return; }
+      vh::stat(fresh ? "equality_checked" : "equality_checked_on_used_target");
+   }
+   else if (fresh) vh::stat("unspecified_equality_with_nan_items");   // IEEE comparison inside ==: only consistency against the panel is demanded
+   CheckFieldwise(M, ref, p, stage);
+   (void)nonflat;
+}
+
+// the oracle.  (prev) = another, unrelated Message (previous content of used targets, member of the equality panel); (salt) chooses the used target
+static void CheckRoundTrip(const Message & M, const Message & prev, uint64_t salt, uint64_t * digestOut, uint32 * sizeOut)
 {
    vh::note("flatten: " + caseDesc);
    // 1
@@ -132,64 +202,59 @@ static void CheckRoundTrip(const Message & M, const Message & prev, uint64_t * d
    uint8 * buf = FlattenExact(M, n);
    if (digestOut) *digestOut = vh::fnv(buf, n);
    vh::stat("bytes_flattened", n);
+   if (!Message::BytesMightContainFlattenedMessage(buf, n)) Fail("layout|bytes-might-contain", "BytesMightContainFlattenedMessage() is false for Flatten's own output");
    // 7
    { const uint8 * p = buf; std::string why; if (!Layout(p, buf + n, M, why) || p != buf + n) Fail("layout|" + std::string(why.empty() ? "trailing-bytes" : "mismatch"), (why.empty() ? vh::fmt("%ld trailing bytes", (long)(buf + n - p)) : why) + " | first bytes " + vh::hex(buf, n, 96)); else vh::stat("layout_walks_ok"); }
+   if (!caseBad) CheckTypeFilter(M, "original");
    // 2 fresh object
    vh::note("unflatten: " + caseDesc);
    Message m2; status_t r = m2.UnflattenFromBytes(buf, n);
    if (r.IsError()) Fail("parse|status", std::string("UnflattenFromBytes of Flatten's own output: ") + r() + " | first bytes " + vh::hex(buf, n, 96));
-   // 3
-   if (!caseBad) (void)Same(M, m2, true, "fresh");
-   // 4
-   if (!caseBad) {
-      const uint32 n2 = m2.FlattenedSize();
-      if (n2 != n) Fail("reflatten|size", vh::fmt("FlattenedSize() %u before, %u after the trip", n, n2));
-      else { uint8 * b2 = FlattenExact(m2, n2); if (memcmp(buf, b2, n) != 0) Fail("reflatten|bytes", FirstDiff(buf, n, b2, n2)); free(b2); }
-   }
-   // 5
    const bool nan = ContainsNaN(M); const uint32_t nonflat = CountNonFlattenable(M);
    if (nan) vh::stat("msgs_with_nan"); if (nonflat) vh::stat("msgs_with_nonflattenable_fields");
+   MessageRef stripped; const Message * ref = &M;
+   if (nonflat) { stripped = Strip(M); ref = stripped(); vh::stat("equality_against_stripped_rebuild"); }
+   // 3, 4, 5
+   if (!caseBad) { vh::note("compare fresh: " + caseDesc); CheckParsed(M, *ref, nan, nonflat, m2, buf, n, "fresh"); }
+   if (!caseBad) CheckTypeFilter(m2, "parsed");
    if (!caseBad) {
-      const uint32 c1 = M.CalculateChecksum(), c2 = m2.CalculateChecksum();
-      if (c1 != c2) Fail("checksum|differs", vh::fmt("CalculateChecksum() %08x before, %08x after the trip", c1, c2));
-      else if (m2.CalculateChecksum(true) != c2) Fail("checksum|nonflattenable-flag", "the parsed Message has no non-flattenable fields, yet CalculateChecksum(true) != CalculateChecksum(false)");
+      // panel: same answers for the original and for the parsed Message
+      // (no member may share objects with the original: == short-cuts on identical addresses, which would hide a NaN from one side only)
+      Message pa; if (pa.UnflattenFromBytes(buf, n).IsError()) Fail("parse|status", "second parse of the same bytes fails");
+      Message pb(m2); pb.what++;
+      Message pc(m2); const String * first = pc.GetFirstFieldNameString(); const bool hasField = first != NULL; if (hasField) { String nm = *first; (void)pc.RemoveName(nm); }
+      Message pd(m2.what);
+      const Message * panel[5] = {&pa, &pb, &pc, &pd, &prev};
+      for (int i = 0; i < 5 && !caseBad; i++) {
+         const Message & P = *panel[i];
+         if ((*ref == P) != (m2 == P) || (P == *ref) != (P == m2)) Fail("equality|panel", vh::fmt("panel member %d: original==P %d, parsed==P %d, P==original %d, P==parsed %d", i, (int)(*ref == P), (int)(m2 == P), (int)(P == *ref), (int)(P == m2)));
+      }
+      if (!caseBad && (m2 == pb || pb == m2)) Fail("equality|what-ignored", "a Message with a different what code compares equal");
+      if (!caseBad && hasField && (m2 == pc || pc == m2)) Fail("equality|field-ignored", "a Message lacking the first field compares equal");
    }
+   // 2b used target: an object that already holds fields (unrelated ones / the same ones / more, fewer, retyped, reordered ones / the product of
+   // an earlier Unflatten); the same results as for the fresh object are required
    if (!caseBad) {
-      vh::note("equality: " + caseDesc);
-      MessageRef stripped; const Message * ref = &M;
-      if (nonflat) { stripped = Strip(M); ref = stripped(); vh::stat("equality_against_stripped_rebuild"); }
-      if (!nan) {
-         if (!(*ref == m2) || (*ref != m2)) Fail("equality|original==parsed", "operator== (original, parsed) is false without any NaN item");
-         else if (!(m2 == *ref) || (m2 != *ref)) Fail("equality|parsed==original", "operator== (parsed, original) is false without any NaN item");
-         vh::stat("equality_checked");
+      vh::note("unflatten into used target: " + caseDesc);
+      Message target; const char * kind = "?";
+      switch (salt % 4) {
+      case 0: target = prev; kind = "unrelated"; break;
+      case 1: target = M; kind = "copy_of_same"; break;
+      case 2: {
+         target = M; kind = "variant_of_same";
+         const String * f = target.GetFirstFieldNameString(); if (f) { String nm = *f; (void)target.RemoveName(nm); }
+         const String * l = target.GetLastFieldNameString(); if (l) { String nm = *l; const uint32 t = target.GetFieldTypeForName(nm); (void)target.RemoveName(nm); if (t == B_INT32_TYPE) (void)target.AddString(nm, "retyped"); else { (void)target.AddInt32(nm, 1); (void)target.AddInt32(nm, 2); } (void)target.MoveNameToFront(nm); }
+         (void)target.AddString("zz extra field of the target", "x"); (void)target.AddPointer("zz extra pointer of the target", &target); target.what ^= 0x55;
+      } break;
+      default: { kind = "previously_parsed"; ByteBufferRef pb = prev.FlattenToByteBuffer(); if (pb() == NULL || target.UnflattenFromByteBuffer(pb).IsError()) HarnessAbort("preparing a previously parsed target"); } break;
       }
-      else vh::stat("unspecified_equality_with_nan_items");   // IEEE comparison inside ==: only consistency against the panel is demanded
-      if (!caseBad) {
-         // panel: same answers for the original and for the parsed Message
-         // (no member may share objects with the original: == short-cuts on identical addresses, which would hide a NaN from one side only)
-         Message pa; if (pa.UnflattenFromBytes(buf, n).IsError()) Fail("parse|status", "second parse of the same bytes fails");
-         Message pb(m2); pb.what++;
-         Message pc(m2); const String * first = pc.GetFirstFieldNameString(); const bool hasField = first != NULL; if (hasField) { String nm = *first; (void)pc.RemoveName(nm); }
-         Message pd(m2.what);
-         const Message * panel[5] = {&pa, &pb, &pc, &pd, &prev};
-         for (int i = 0; i < 5 && !caseBad; i++) {
-            const Message & P = *panel[i];
-            if ((*ref == P) != (m2 == P) || (P == *ref) != (P == m2)) Fail("equality|panel", vh::fmt("panel member %d: original==P %d, parsed==P %d, P==original %d, P==parsed %d", i, (int)(*ref == P), (int)(m2 == P), (int)(P == *ref), (int)(P == m2)));
-         }
-         if (!caseBad && (m2 == pb || pb == m2)) Fail("equality|what-ignored", "a Message with a different what code compares equal");
-         if (!caseBad && hasField && (m2 == pc || pc == m2)) Fail("equality|field-ignored", "a Message lacking the first field compares equal");
-      }
-   }
-   // 2b reused object
-   if (!caseBad) {
-      vh::note("unflatten into reused object: " + caseDesc);
-      Message reused(prev);
-      r = reused.UnflattenFromBytes(buf, n);
-      if (r.IsError()) Fail("parse-reused|status", std::string("UnflattenFromBytes into an object that held another Message: ") + r());
-      else if (Same(m2, reused, false, "reused")) {
-         const uint32 n3 = reused.FlattenedSize();
-         if (n3 != n) Fail("reused|size", vh::fmt("FlattenedSize() %u vs %u", n, n3)); else { uint8 * b3 = FlattenExact(reused, n3); if (memcmp(buf, b3, n) != 0) Fail("reused|bytes", FirstDiff(buf, n, b3, n3)); free(b3); }
-      }
+      const uint32 had = target.GetNumNames(), comes = m2.GetNumNames();
+      vh::stat(std::string("used_target_") + kind);
+      if (had > 0) { vh::stat("used_target_nonempty"); if (comes == 0) vh::stat("used_target_nonempty_incoming_empty"); else if (had > comes) vh::stat("used_target_had_more_fields"); else if (had < comes) vh::stat("used_target_had_fewer_fields"); }
+      r = target.UnflattenFromBytes(buf, n);
+      if (r.IsError()) Fail("reused|parse-status", std::string("UnflattenFromBytes into an object that held ") + kind + " content: " + r());
+      else CheckParsed(M, *ref, nan, nonflat, target, buf, n, "reused");
+      if (!caseBad) (void)Same(m2, target, false, "reused");
    }
    // 6
    if (!caseBad) {
@@ -244,14 +309,74 @@ static void CountTrace(const GenTrace & tr)
    vh::statmax("max_depth", tr.maxDepthReached);
 }
 
+// ---- construction routes: how the Message under test comes into being -----------------------------------------------------------------
+enum { RT_PLAIN = 0, RT_LIGHTWEIGHT_PRIVATE, RT_LIGHTWEIGHT_SHARED, RT_FROM_BYTES, RT_COPY, RT_SWAPCONTENTS, RT_CROSSNAME, NUM_RT };
+static const char * const kRouteName[NUM_RT] = {"plain", "lightweight_copy_private_mutation", "lightweight_copy_shared_mutation", "from_bytes_then_mutated", "copy_then_mutated", "swapcontents", "crossname"};
+static ObjectPool<Message> * ownPool = NULL;   // for the GetMessageFromPool(pool, ...) overloads; never destroyed (its objects may outlive main's locals)
+
+static std::vector<uint8> BytesOf(const Message & m) { const uint32 n = m.FlattenedSize(); uint8 * b = FlattenExact(m, n); std::vector<uint8> v(b, b + n); free(b); return v; }
+static bool SameBytes(const Message & m, const std::vector<uint8> & want, const std::string & key, const std::string & what)
+{
+   const std::vector<uint8> got = BytesOf(m);
+   if (got == want) return true;
+   Fail(key, what + ": " + FirstDiff(want.empty() ? NULL : &want[0], (uint32)want.size(), got.empty() ? NULL : &got[0], (uint32)got.size())); return false;
+}
+static MessageRef MustRef(const MessageRef & r, const char * how) { if (r() == NULL) Fail("route|null-reference", std::string(how) + " returned a NULL reference"); return r; }
+static void Report(GenTrace & tr) { if (!tr.routeFailKey.empty()) Fail(tr.routeFailKey, tr.routeFailDetail); }
+
+// every field of (now) except (skip) must be what it was in the deep copy (was) taken before an operation on (skip)
+static void OthersUntouched(const Message & was, const Message & now, const String & skip, const char * key)
+{
+   for (MessageFieldNameIterator it = was.GetFieldNameIterator(); it.HasData() && !caseBad; it++) { if (it.GetFieldName() == skip) continue; std::string w, k2; if (!SameField(was, it.GetFieldName(), now, it.GetFieldName(), false, w, k2)) Fail(std::string(key) + "|bystander-field-changed", w); }
+   for (MessageFieldNameIterator it = now.GetFieldNameIterator(); it.HasData() && !caseBad; it++) { if (it.GetFieldName() == skip) continue; if (!was.HasName(it.GetFieldName())) Fail(std::string(key) + "|bystander-field-appeared", Esc(it.GetFieldName()(), 30)); }
+}
+
+// SwapName / MoveName / CopyName / ShareName between two generated Messages, against the documented outcome
+static void CrossNameOps(vh::Rng & g, Message & A0, Message & B0)
+{
+   for (uint32 k = 1 + g.R(3); k > 0 && !caseBad; k--) {
+      Message & A = g.R(2) ? A0 : B0; Message & B = (&A == &A0) ? B0 : A0;
+      std::vector<String> na, nb; for (MessageFieldNameIterator it = A.GetFieldNameIterator(); it.HasData(); it++) na.push_back(it.GetFieldName()); for (MessageFieldNameIterator it = B.GetFieldNameIterator(); it.HasData(); it++) nb.push_back(it.GetFieldName());
+      String fn; const uint32 pick = g.R(8);
+      if (pick < 5 && !na.empty()) fn = na[g.R((uint32)na.size())]; else if (pick < 7 && !nb.empty()) fn = nb[g.R((uint32)nb.size())]; else fn = "in neither Message";
+      const uint32 op = g.R(4);
+      if (op == 0 && A.HasName(fn) && !B.HasName(fn) && !nb.empty() && g.R(2)) { if (B.Rename(nb[g.R((uint32)nb.size())], fn).IsError()) HarnessAbort("Rename"); }   // make the like-named case (usually of another type) frequent
+      const bool inA = A.HasName(fn), inB = B.HasName(fn);
+      const Message wasA(A), wasB(B);   // deep copies (sub-Message objects inside arrays stay shared, nothing here changes them in place)
+      std::string w, k2;
+      if (op == 0) {
+         vh::stat("crossname_swapname"); if (inA && inB) vh::stat("crossname_swapname_both_present"); else if (inA || inB) vh::stat("crossname_swapname_one_present");
+         const status_t r = A.SwapName(fn, B);
+         if (r.IsOK() != (inA || inB)) { Fail("crossname|swapname|status", vh::fmt("SwapName: field in this %d, in other %d, status %s", (int)inA, (int)inB, r())); return; }
+         if (!SameField(wasB, fn, A, fn, false, w, k2) || !SameField(wasA, fn, B, fn, false, w, k2)) { Fail("crossname|swapname|" + k2, "after SwapName: " + w); return; }
+         OthersUntouched(wasA, A, fn, "crossname|swapname"); OthersUntouched(wasB, B, fn, "crossname|swapname");
+      }
+      else {
+         const bool rename = g.R(2) != 0; const String to = rename ? String(g.R(2) && !nb.empty() ? nb[g.R((uint32)nb.size())] : String("brought over")) : fn;
+         const char * name = op == 1 ? "movename" : op == 2 ? "copyname" : "sharename"; vh::stat(std::string("crossname_") + name);
+         const status_t r = op == 1 ? (rename ? A.MoveName(fn, B, to) : A.MoveName(fn, B)) : op == 2 ? (rename ? A.CopyName(fn, B, to) : A.CopyName(fn, B)) : (rename ? A.ShareName(fn, B, to) : A.ShareName(fn, B));
+         if (r.IsOK() != inA) { Fail(std::string("crossname|") + name + "|status", vh::fmt("field in the source %d, status %s", (int)inA, r())); return; }
+         if (inA) {
+            if (!SameField(wasA, fn, B, to, false, w, k2)) { Fail(std::string("crossname|") + name + "|" + k2, "the field that arrived differs: " + w); return; }
+            if (op == 1 ? A.HasName(fn) : !SameField(wasA, fn, A, fn, false, w, k2)) { Fail(std::string("crossname|") + name + "|source", op == 1 ? "MoveName left the field in the source" : "the source field changed: " + w); return; }
+            OthersUntouched(wasB, B, to, (std::string("crossname|") + name).c_str());
+         }
+         else OthersUntouched(wasB, B, String("\x01 none"), (std::string("crossname|") + name).c_str());
+         OthersUntouched(wasA, A, fn, (std::string("crossname|") + name).c_str());
+      }
+   }
+}
+
 static void RunCase(long k, uint64_t cs, bool product)
 {
    vh::Rng g(cs); caseBad = false; caseDesc = "(generating)";
+   if (ownPool == NULL) ownPool = new ObjectPool<Message>();
    GenOptions o = GenOptions::Full(); o.sizeClass = (int)vh::optl("size", SIZE_NORMAL);
    GenOptions small = GenOptions::Small();
-   MessageRef prev = GenMessage(g, small);                 // previous content of reused objects
+   MessageRef prev = GenMessage(g, g.R(4) ? small : o);    // previous content of used targets, panel member: small (3 of 4) or full-size
    GenTrace tr; tr.wantScript = vh::want_sample();
-   MessageRef mr;
+   MessageRef mr, second, keepSource;
+   int route = RT_PLAIN;
    if (product) {
       // enumerated: type class x representation state (the 7 named ones) x position of the field (first / middle / last of three)
       const int cls = (int)(k % NUM_TC), st = (int)((k / NUM_TC) % (NUM_RS - 1)), pos = (int)((k / (NUM_TC * (NUM_RS - 1))) % 3);
@@ -263,16 +388,93 @@ static void RunCase(long k, uint64_t cs, bool product)
       }
       vh::stat(std::string("product_") + TypeClassName(cls) + "_" + RepStateName(st));
    }
-   else mr = GenMessage(g, o, &tr);
+   else {
+      { const uint32 r = g.R(20); route = r < 8 ? RT_PLAIN : (int)(1 + (r - 8) / 2); }
+      MessageRef S = GenMessage(g, o, &tr); Report(tr);
+      caseDesc = std::string(kRouteName[route]) + ", source " + DescribeMessage(*S());
+      vh::note("route: " + caseDesc);
+      switch (route) {
+      case RT_PLAIN: mr = S; break;
+      case RT_LIGHTWEIGHT_PRIVATE: case RT_LIGHTWEIGHT_SHARED: {
+         const std::vector<uint8> bytesS = BytesOf(*S());
+         MessageRef L;
+         switch (g.R(3)) { case 0: L = MustRef(GetLightweightCopyOfMessageFromPool(*S()), "GetLightweightCopyOfMessageFromPool"); break; case 1: L = MustRef(GetLightweightCopyOfMessageFromPool(*ownPool, *S()), "GetLightweightCopyOfMessageFromPool(pool)"); break;
+                          default: L = MustRef(GetMessageFromPool(*prev()), "GetMessageFromPool(const Message &)"); if (L()) L()->BecomeLightweightCopyOf(*S()); break; }
+         if (caseBad) break;
+         // "this object will look like a copy of (rhs)"
+         if (!Same(*S(), *L(), false, "lightweight") || !SameBytes(*L(), bytesS, "lightweight|bytes", "a lightweight copy flattens differently from its source")) break;
+         if (route == RT_LIGHTWEIGHT_PRIVATE) {
+            // the copy is mutated with EnsureFieldIsPrivate() before every item-level operation ("handy when you are about to modify a field ... and want to
+            // make sure that the field isn't shared"); field-table operations need no such care.  The source must keep flattening to its old bytes, and the
+            // copy must end up exactly like a deep copy that went through the same mutations.
+            MessageRef D = MustRef(GetMessageFromPool(*S()), "GetMessageFromPool(const Message &)"); if (caseBad) break;
+            vh::Rng g2 = g; GenTrace tr2;
+            MutateMessage(g, o, *L(), MUT_PRIVATE_FIRST, &tr); Report(tr);
+            MutateMessage(g2, o, *D(), MUT_PRIVATE_FIRST, &tr2);
+            if (!caseBad) (void)SameBytes(*S(), bytesS, "lightweight|source-changed", "mutating a lightweight copy (EnsureFieldIsPrivate first) changed what the source flattens to");
+            if (!caseBad && Same(*D(), *L(), false, "lightweight-twin")) (void)SameBytes(*L(), BytesOf(*D()), "lightweight-twin|bytes", "the mutated lightweight copy flattens differently from a deep copy mutated the same way");
+            mr = L; keepSource = S;   // the source stays alive (and sharing) during the oracle
+         }
+         else {
+            // item-level operations on fields of >= 2 items without EnsureFieldIsPrivate: documented to show in both Messages.  C01 only demands that
+            // BOTH still make the trip; whether the source saw the change is counted, not judged.
+            MutateMessage(g, o, *L(), MUT_SHARED_ITEMS, &tr); Report(tr);
+            if (BytesOf(*S()) != bytesS) vh::stat("observed_shared_mutation_visible_in_source"); else vh::stat("observed_shared_mutation_not_visible_in_source");
+            mr = L; second = S;
+         }
+      } break;
+      case RT_FROM_BYTES: {
+         const std::vector<uint8> b = BytesOf(*S()); const uint32 n = (uint32)b.size();
+         switch (g.R(4)) { case 0: mr = MustRef(GetMessageFromPool(&b[0], n), "GetMessageFromPool(bytes, n)"); break; case 1: mr = MustRef(GetMessageFromPool(*ownPool, &b[0], n), "GetMessageFromPool(pool, bytes, n)"); break;
+                          case 2: mr = MustRef(GetMessageFromPool(*ownPool, (uint32)77), "GetMessageFromPool(pool, what)"); if (mr() && mr()->UnflattenFromBytes(&b[0], n).IsError()) Fail("parse|status", "UnflattenFromBytes of Flatten's own output"); break;
+                          default: { mr = MustRef(GetMessageFromPool(*prev()), "GetMessageFromPool(const Message &)"); ByteBufferRef bb = GetByteBufferFromPool(n, &b[0]); if (bb() == NULL) HarnessAbort("GetByteBufferFromPool"); if (mr() && mr()->UnflattenFromByteBuffer(*bb()).IsError()) Fail("parse|status", "UnflattenFromByteBuffer of Flatten's own output"); } break; }
+         if (caseBad) break;
+         if (!Same(*S(), *mr(), true, "frombytes")) break;
+         MutateMessage(g, o, *mr(), 0, &tr); Report(tr);   // every field is in the state the parser left it in
+      } break;
+      case RT_COPY: {
+         const std::vector<uint8> bytesS = BytesOf(*S());
+         switch (g.R(6)) {
+         case 0: mr = MustRef(GetMessageFromPool(*S()), "GetMessageFromPool(const Message &)"); break;
+         case 1: mr = MustRef(GetMessageFromPool(*ownPool, *S()), "GetMessageFromPool(pool, const Message &)"); break;
+         case 2: mr = MustRef(GetMessageFromPool(*prev()), "GetMessageFromPool(const Message &)"); if (mr() && mr()->CopyFrom(*S()).IsError()) Fail("route|copyfrom-status", "Message::CopyFrom(Message) failed"); break;
+         case 3: mr = MustRef(GetMessageFromPool(*prev()), "GetMessageFromPool(const Message &)"); if (mr() && S()->CopyTo(*mr()).IsError()) Fail("route|copyfrom-status", "Message::CopyTo(Message) failed"); break;
+         case 4: { Message * c = dynamic_cast<Message *>(S()->Clone()); if (c == NULL) Fail("route|null-reference", "Clone() did not return a Message"); else mr.SetRef(c); } break;
+         default: { Message w(1); if (w.AddMessage("w", S).IsError()) HarnessAbort("AddMessage"); mr = MustRef(GetMessageFromPool(*prev()), "GetMessageFromPool(const Message &)"); if (mr() && w.FindMessage("w", 0, *mr()).IsError()) Fail("route|findmessage-by-value-status", "FindMessage(name, index, Message &) failed"); } break;
+         }
+         if (caseBad) break;
+         if (!Same(*S(), *mr(), false, "copy-route")) break;
+         MutateMessage(g, o, *mr(), 0, &tr); Report(tr);
+         if (!caseBad) (void)SameBytes(*S(), bytesS, "copy|source-changed", "mutating a copy changed what the source flattens to ('a copied Message shouldn't share data')");
+         keepSource = S;
+      } break;
+      case RT_SWAPCONTENTS: {
+         MessageRef N = GenMessage(g, g.R(2) ? small : o);
+         const std::vector<uint8> bS = BytesOf(*S()), bN = BytesOf(*N()); const Message cS(*S()), cN(*N());
+         switch (g.R(3)) { case 0: S()->SwapContents(*N()); break; case 1: { Message t(std::move(*S())); *S() = std::move(*N()); *N() = std::move(t); } break; default: S()->SwapContents(*N()); N()->SwapContents(*S()); N()->SwapContents(*S()); break; }
+         if (Same(cN, *S(), false, "swapcontents") && Same(cS, *N(), false, "swapcontents") && SameBytes(*S(), bN, "swapcontents|bytes", "after SwapContents") && SameBytes(*N(), bS, "swapcontents|bytes", "after SwapContents")) { mr = S; second = N; }
+      } break;
+      default: {
+         MessageRef N = GenMessage(g, g.R(2) ? small : o);
+         CrossNameOps(g, *S(), *N());
+         mr = S; second = N;
+      } break;
+      }
+      vh::stat(std::string("route_") + kRouteName[route]);
+   }
    CountTrace(tr);
-   const Message & M = *mr();
-   caseDesc = DescribeMessage(M);
    uint64_t dig = 0; uint32 size = 0;
-   CheckRoundTrip(M, *prev(), &dig, &size);
-   vh::distinct(dig, size > 12);   // non-trivial: at least one field reaches the wire
+   if (!caseBad && mr()) {
+      const Message & M = *mr();
+      caseDesc = std::string(kRouteName[route]) + ": " + DescribeMessage(M);
+      CheckRoundTrip(M, *prev(), g.next(), &dig, &size);
+      if (!caseBad && second()) { caseDesc = std::string(kRouteName[route]) + " (second Message): " + DescribeMessage(*second()); CheckRoundTrip(*second(), *prev(), g.next(), NULL, NULL); vh::stat("second_messages_checked"); }
+      if ((k % 40) == 0) { vh::stat("tostring_calls"); const String ts = M.ToString(); if (ts.Length() == 0) Fail("tostring|empty", "ToString() of a Message is empty"); }   // Print() walks every representation state too (memory safety only)
+   }
+   vh::distinct(dig ? dig : cs, size > 12);   // non-trivial: at least one field reaches the wire
    vh::statmax("max_flattened_size", size);
    if (size > 12) vh::stat("msgs_with_wire_fields");
-   if (tr.wantScript) { uint8 * b = FlattenExact(M, size); vh::sample(vh::fmt("case %ld (%u bytes): script ", k, size) + tr.script + " => " + caseDesc + " => " + vh::hex(b, size, 64)); free(b); }
+   if (tr.wantScript && mr() && !caseBad) { uint8 * b = FlattenExact(*mr(), size); vh::sample(vh::fmt("case %ld (%u bytes): script ", k, size) + tr.script + " => " + caseDesc + " => " + vh::hex(b, size, 64)); free(b); }
 }
 
 // ---- fixed witnesses and documentation examples -------------------------------------------------------------------------------
@@ -282,7 +484,7 @@ static void Reg(const char * name, const Message & m)
    vh::begin_case(rcase++); caseBad = false; caseDesc = std::string(name) + ": " + DescribeMessage(m);
    Message prev(77); (void)prev.AddString("old", "content"); (void)prev.AddInt32("old2", 1); (void)prev.AddInt32("old2", 2);
    uint64_t dig = 0; uint32 size = 0;
-   CheckRoundTrip(m, prev, &dig, &size);
+   CheckRoundTrip(m, prev, (uint64_t)rcase, &dig, &size);
    vh::distinct(dig, true); vh::stat("regress_messages");
 }
 #define MUST(x) do { if ((x).IsError()) HarnessAbort(std::string("regress build step failed: ") + #x); } while (0)
@@ -345,6 +547,48 @@ static void Regress()
      Reg("docex example_4_add_flat", orderPizzaMsg);
      ByteBuffer buf4(orderPizzaMsg.FlattenedSize()); MUST(orderPizzaMsg.FlattenToByteBuffer(buf4)); Message m4; MUST(m4.UnflattenFromByteBuffer(buf4)); DeliveryInfo back;
      Expect(m4.FindFlat("delivery_info", back).IsOK() && back == di, "docex-4", "example_4: FindFlat() on the unflattened Message does not give back the object"); }
+   // ---- construction routes (second round): fixed witnesses
+   { // lightweight copy: looks like a copy; field-table operations and EnsureFieldIsPrivate()d item operations on it leave the source alone
+     Message S(1); MUST(S.AddInt32("a", 1)); MUST(S.AddInt32("a", 2)); MUST(S.AddInt32("a", 3)); MUST(S.AddString("b", "x")); const std::vector<uint8> bS = BytesOf(S);
+     Message L; L.BecomeLightweightCopyOf(S); Reg("lightweight copy, untouched", L); Expect(BytesOf(L) == bS, "lightweight-bytes", "a lightweight copy must flatten like its source");
+     MUST(L.EnsureFieldIsPrivate("a")); MUST(L.AddInt32("a", 9)); MUST(L.RemoveName("b")); MUST(L.AddBool("c", true)); L.what = 2;
+     Message E(2); MUST(E.AddInt32("a", 1)); MUST(E.AddInt32("a", 2)); MUST(E.AddInt32("a", 3)); MUST(E.AddInt32("a", 9)); MUST(E.AddBool("c", true));
+     Reg("lightweight copy, mutated", L); Expect(BytesOf(L) == BytesOf(E), "lightweight-own-bytes", "the mutated lightweight copy must flatten to its own content"); Expect(BytesOf(S) == bS, "lightweight-source-changed", "the source of a lightweight copy changed although the copy's field was made private first");
+     MessageRef P = GetLightweightCopyOfMessageFromPool(S); Expect(P() && BytesOf(*P()) == bS, "lightweight-bytes", "GetLightweightCopyOfMessageFromPool"); if (P()) { MUST(P()->AddInt32("a", 4)); Reg("lightweight copy sharing a mutated array", *P()); Reg("its source", S); } }
+   { // deep copy: item operations on the copy never reach the source
+     Message S(1); for (int i = 0; i < 5; i++) MUST(S.AddString("s", "v")); MUST(S.AddFloat("f", 1.5f)); const std::vector<uint8> bS = BytesOf(S);
+     Message C(S); MUST(C.AddString("s", "w")); MUST(C.ReplaceFloat(false, "f", 2.5f)); MUST(C.RemoveData("s", 0)); Reg("mutated deep copy", C); Expect(BytesOf(S) == bS, "copy-source-changed", "mutating a copy changed the source");
+     MessageRef G = GetMessageFromPool(S); Message viaCopyFrom(9); MUST(viaCopyFrom.AddInt8("old", 1)); MUST(viaCopyFrom.CopyFrom(S)); Expect(G() && BytesOf(*G()) == bS && BytesOf(viaCopyFrom) == bS, "copy-bytes", "GetMessageFromPool(const Message &) / CopyFrom()"); }
+   { // SortDataInField: default comparator of the type, [from, to), stable; GetPointerToNormalizedFieldData: contiguous items
+     Message m(1); const int32 v[6] = {3, -1, 2, -7, 2, 0}; for (int i = 0; i < 6; i++) MUST(m.AddInt32("i", v[i])); MUST(m.AddString("s", "pear")); MUST(m.AddString("s", "apple")); MUST(m.PrependString("s", "zebra")); MUST(m.AddInt32("one", 5));
+     m.SortDataInField("i", 1, 5); Message e1(1); const int32 w1[6] = {3, -7, -1, 2, 2, 0}; for (int i = 0; i < 6; i++) MUST(e1.AddInt32("i", w1[i])); Message t; MUST(m.CopyName("i", t)); t.what = 1; Expect(BytesOf(t) == BytesOf(e1), "sort-range", "SortDataInField(\"i\", 1, 5) on {3,-1,2,-7,2,0} must give {3,-7,-1,2,2,0}");
+     m.SortDataInField("i"); m.SortDataInField("s"); m.SortDataInField("one"); m.SortDataInField("absent");
+     Message e(1); const int32 w[6] = {-7, -1, 0, 2, 2, 3}; for (int i = 0; i < 6; i++) MUST(e.AddInt32("i", w[i])); MUST(e.AddString("s", "apple")); MUST(e.AddString("s", "pear")); MUST(e.AddString("s", "zebra")); MUST(e.AddInt32("one", 5));
+     Reg("sorted fields", m); Expect(BytesOf(m) == BytesOf(e), "sort-whole", "SortDataInField on int32 {3,-7,-1,2,2,0} / string {zebra,pear,apple}");
+     Message q(1); for (int i = 0; i < 12; i++) MUST(q.AddInt16("h", (int16)i)); for (int i = 1; i <= 5; i++) MUST(q.PrependInt16("h", (int16)-i)); uint32 cnt = 0; const int16 * a = (const int16 *)q.GetPointerToNormalizedFieldData("h", &cnt, B_INT16_TYPE);
+     bool ok = a != NULL && cnt == 17; for (int i = 0; ok && i < 17; i++) if (a[i] != (int16)(i - 5)) ok = false; Expect(ok, "normalize", "GetPointerToNormalizedFieldData after 12 adds and 5 prepends must point to -5..11 back to back"); Expect(q.GetPointerToNormalizedFieldData("h", &cnt, B_INT32_TYPE) == NULL, "normalize", "wrong type must give NULL"); Reg("normalized field", q); }
+   { // F55: Queue<bool>::Normalize(), rotate branch, loaded never-written spare slots (UBSan decides: invalid bool load at Queue.h)
+     Message m(1); for (int i = 0; i < 5; i++) MUST(m.AddBool("b", true)); MUST(m.PrependBool("b", false)); uint32 cnt = 0; const bool * a = (const bool *)m.GetPointerToNormalizedFieldData("b", &cnt);
+     bool ok = a != NULL && cnt == 6 && a[0] == false; for (int i = 1; ok && i < 6; i++) if (a[i] != true) ok = false; Expect(ok, "F55-normalize-bool", "GetPointerToNormalizedFieldData on 5 added + 1 prepended bools must point to F,T,T,T,T,T"); Reg("F55 normalized bool field", m); }
+   { // SwapName / SwapContents / by-value FindMessage
+     Message a(1), b(2); MUST(a.AddInt32("both", 1)); MUST(a.AddString("onlyA", "x")); MUST(b.AddString("both", "s")); MUST(b.AddString("both", "t")); MUST(b.AddDouble("onlyB", 2.0));
+     MUST(a.SwapName("both", b)); MUST(a.SwapName("onlyA", b)); MUST(b.SwapName("onlyB", a)); Expect(a.SwapName("nowhere", b).IsError(), "swapname-status", "SwapName of a field in neither Message must fail");
+     Message ea(1), eb(2); MUST(ea.AddString("both", "s")); MUST(ea.AddString("both", "t")); MUST(ea.AddDouble("onlyB", 2.0)); MUST(eb.AddInt32("both", 1)); MUST(eb.AddString("onlyA", "x"));
+     Reg("after SwapName (a)", a); Reg("after SwapName (b)", b); Expect(a == ea && b == eb && ea == a && eb == b, "swapname", "SwapName: like-named fields swap, one-sided fields move");
+     a.SwapContents(b); Expect(a == eb && b == ea && a.what == 2 && b.what == 1, "swapcontents", "SwapContents swaps the fields and the what codes"); Message mv(std::move(a)); Expect(mv == eb && mv.what == 2, "swapcontents", "move constructor");
+     Message outer(7); MUST(outer.AddMessage("sub", ea)); MUST(outer.AddMessage("sub", eb)); Message got(99); MUST(got.AddInt32("old", 1)); MUST(outer.FindMessage("sub", 1, got)); Expect(got == eb && BytesOf(got) == BytesOf(eb), "findmessage-by-value", "FindMessage(name, 1, Message &) must overwrite the target with a copy of the second sub-Message");
+     MUST(outer.ReplaceMessage(false, "sub", 0, got)); Reg("by-value copy re-inserted", outer); }
+   { // Unflatten into used targets; type-filtered iteration; AreFieldsEqual
+     Message in(5); MUST(in.AddInt32("x", 1)); MUST(in.AddString("y", "s")); MUST(in.AddInt32("z", 2)); const std::vector<uint8> b = BytesOf(in); const Message empty(6); const std::vector<uint8> be = BytesOf(empty);
+     Message t1(1); MUST(t1.AddString("x", "other type")); MUST(t1.AddInt32("y", 3)); MUST(t1.AddInt32("more", 3)); MUST(t1.AddPointer("p", &t1)); MUST(t1.AddInt32("z", 9)); MUST(t1.AddInt32("z", 10)); MUST(t1.AddInt32("evenmore", 3));
+     Message t2(t1), t3(in);
+     MUST(t1.UnflattenFromBytes(&b[0], (uint32)b.size())); Expect(BytesOf(t1) == b && t1 == in && t1.GetNumNames() == 3 && t1.CalculateChecksum() == in.CalculateChecksum(), "used-target", "Unflatten into a target holding more, retyped and pointer fields");
+     MUST(t2.UnflattenFromBytes(&be[0], (uint32)be.size())); Expect(BytesOf(t2) == be && t2 == empty && t2.IsEmpty() && t2.what == 6, "used-target-incoming-empty", "Unflatten of a field-less Message into a used target must leave no field behind");
+     MUST(t3.UnflattenFromBytes(&be[0], (uint32)be.size())); MUST(t3.UnflattenFromBytes(&b[0], (uint32)b.size())); Expect(BytesOf(t3) == b && t3 == in, "used-target", "Unflatten twice into the same object");
+     std::string l; for (MessageFieldNameIterator it = in.GetFieldNameIterator(B_INT32_TYPE); it.HasData(); it++) { l += it.GetFieldName()(); l += ","; } std::string l2; for (MessageFieldNameIterator it(in, B_STRING_TYPE); it.HasData(); it++) { l2 += it.GetFieldName()(); l2 += ","; }
+     Expect(l == "x,z," && l2 == "y," && in.GetNumNames(B_INT32_TYPE) == 2 && !in.HasNames(B_FLOAT_TYPE), "typefilter", "type-filtered field name iteration");
+     const String X("x"), Y("y"), Z("z");   // (with two string literals the call would pick the (name, bool) overload: pointer-to-bool beats const char *-to-String)
+     Expect(in.AreFieldsEqual(t1, X) && in.AreFieldsEqual(t1, "nowhere") && !in.AreFieldsEqual(t1, X, Z) && in.AreFieldsEqual(t1, X, Z, false) && !in.AreFieldsEqual(t1, X, Y, false) && !in.AreFieldsEqual(empty, X), "arefieldsequal", "AreFieldsEqual as documented"); Reg("parsed into used target", t1); }
    // documented statements of Message.h
    { Message m(9); int target = 0; MUST(m.AddPointer("ptr", &target)); MUST(m.AddTag("tag", GetMessageFromPool(1).GetRefCountableRef())); MUST(m.AddInt32("kept", 3)); Reg("pointer and tag are not serialised", m);
      ByteBufferRef b = m.FlattenToByteBuffer(); Message o; MUST(o.UnflattenFromByteBuffer(b)); Expect(!o.HasName("ptr") && !o.HasName("tag") && o.HasName("kept", B_INT32_TYPE) && o.GetNumNames() == 1, "doc-nonflattenable", "Message.h: pointer fields / AddTag() objects 'will not be serialized'"); }
